@@ -69,8 +69,9 @@ def value_readings(v):
         return [("null", None, t) for t in ("None", "null", "", "~")]
     if isinstance(v, bool) or type(v).__name__ == "ScalarBoolean":
         b = bool(v)
-        return [("bool", b, "True" if b else "False"), ("bool", b, "true" if b else "false"),
-                ("boolnum", int(b), "True" if b else "False"), ("boolnum", int(b), "true" if b else "false")]
+        # text of a bare boolean is not documented: Python/YAML spelling or (ruamel's anchored booleans) 1/0
+        texts = ("True", "true", "1") if b else ("False", "false", "0")
+        return [("bool", b, t) for t in texts] + [("boolnum", int(b), t) for t in texts]
     if isinstance(v, int):
         return [("int", int(v), str(int(v)))]
     if isinstance(v, float):
